@@ -123,7 +123,16 @@ func (m *Model) Gated(v ssa.Value) string {
 	return m.gated(v, 0)
 }
 
+// GatedEntry is Gated for a loop-header phi, considering only the edges that enter the loop.
+func (m *Model) GatedEntry(phi *ssa.Phi) string {
+	return m.gatedFilter(phi, 0, func(pred *ssa.BasicBlock) bool { return !inLoopFrom(pred, phi.Block()) })
+}
+
 func (m *Model) gated(v ssa.Value, depth int) string {
+	return m.gatedFilter(v, depth, nil)
+}
+
+func (m *Model) gatedFilter(v ssa.Value, depth int, keep func(pred *ssa.BasicBlock) bool) string {
 	for {
 		switch x := v.(type) {
 		case *ssa.Convert:
@@ -147,6 +156,9 @@ func (m *Model) gated(v ssa.Value, depth int) string {
 	b := phi.Block()
 	for i, e := range phi.Edges {
 		pred := b.Preds[i]
+		if keep != nil && !keep(pred) {
+			continue
+		}
 		succIdx := 0
 		for j, s := range pred.Succs {
 			if s == b {
